@@ -12,8 +12,12 @@ Tie        : correspondence of the extracted model with the library rebuilt from
          cg_coord_write / cg_field_write, particle twins; rind planes, both CG_CONFIG_RIND_* (harness/c05_mid.c)
 Oracle     : an independent nested-loop reference in this file (never goes through the Coq model): it decides
              accept / reject from the property text and recomputes every linear offset from the index vector.
-Known      : ADFH computes the point count of a strided range as floor((end-start+1)/stride) and rejects
-             stride > extent, ADF uses ceil: key adfh-stride-count-floor (Properties: C05_adfh_stride_refuted).
+History    : ADFH used to count floor((end-start+1)/stride) points and to reject stride > extent (repaired in /repo
+             by 358f914; Properties: C05_adfh_stride_refuted is the historical witness on the old variant, the three
+             witnesses live in corpus/C05/adfh_stride.lo).  Any ADF / HDF5 stride divergence is a VIOLATION.
+Known      : key array-general-rank-gt-indexdim-rind-oob -- cg_array_general_write of an array whose rank differs from
+             IndexDimension under a rind-bearing parent reads rind_planes out of bounds (ASan READ in
+             cgi_array_general_verify_range); probed on every run, matched narrowly.
 """
 import hashlib, json, os
 import vlib
@@ -21,7 +25,6 @@ import vlib
 GUARD = 4
 PRE = [-(9000000 + i) for i in range(GUARD)]
 POST = [-(9500000 + i) for i in range(GUARD)]
-KNOWN_KEY = "adfh-stride-count-floor"
 CHECKER = "make -C coq HyperslabProofs.vo (coqc 8.16.1 kernel) ; coqc Properties_C05.v (Print Assumptions)"
 TYPES = ["i4", "i8", "r4", "r8"]
 
@@ -540,8 +543,8 @@ def lo_oracle_run(script, groups, backend):
             dims, vals = nodes[o["name"]]
             pairs = lo_reference(dims, o["s"], o["mdims"], o["m"])
             n = buflen(o["mdims"])
-            info = {"known_class": backend == "hdf5" and (nondividing(dims, o["s"]) or nondividing(o["mdims"], o["m"])),
-                    "accepted": pairs is not None,
+            info = {"accepted": pairs is not None,
+                    "strided": nondividing(dims, o["s"]) or nondividing(o["mdims"], o["m"]),
                     "nontrivial": pairs is not None and 0 < len(pairs) < len(vals)}
             if o["op"] == "w":
                 mem = [o["base"] + j for j in range(n)]
@@ -583,7 +586,7 @@ def mid_oracle_run(script, groups):
                 pairs = [(j, j) for j in range(len(vals))]
             else:
                 pairs = mid_reference(o["op"], zero, o["rlo"], o["sdims"], o["s"], o["mdims"], o["m"])
-            info = {"known_class": False, "accepted": pairs is not None,
+            info = {"accepted": pairs is not None,
                     "nontrivial": pairs is not None and 0 < len(pairs) < len(vals) and (
                         o["rlo"] is not None and any(o["rlo"]) or len(o["mdims"]) != len(o["sdims"]))}
             if o["op"] == "w":
@@ -658,14 +661,7 @@ def run_level(ck, level, exe, backend, script, tag, state):
         key = hashlib.sha1((backend + script[i]).encode()).hexdigest() if info["nontrivial"] else None
         ck.case(key, sample={"level": level, "backend": backend, "op": script[i]} if key else None)
     for (i, exp, obs, info) in fails:
-        if (info and info["known_class"] and obs is not None and mgroups[i] == obs and "MEMCHANGED" not in obs):
-            # the implementation does exactly what the faithful ADFH model (floor count / stride > extent) predicts
-            w = case_lines(script, i)
-            if state["known"] == 0 or ck.known_match(KNOWN_KEY):      # an unlisted key is reported once, with its first witness
-                ck.finding(KNOWN_KEY, {"level": level, "backend": backend, "script": w, "expected": exp, "observed": obs})
-            state["known"] += 1
-            continue
-        # a property failure that is not the known one: shrink and report
+        # a property failure: shrink and report
         if level == "lo" and i < len(script):
             small = case_lines(script, i)
         else:
@@ -675,11 +671,10 @@ def run_level(ck, level, exe, backend, script, tag, state):
 
             def still(sub, setup=setup):
                 f, _, _, _ = evaluate(level, backend, setup + sub, *run_only(exe, setup + sub, path, backend), None)
-                return any(not (x[3] and x[3]["known_class"]) for x in f)
+                return bool(f)
             small = setup + (vlib.ddmin(ops, still, max_tests=60) if len(ops) > 1 else ops)
         il2, oc2 = run_only(exe, small, path, backend)
         f2, _, g2, o2 = evaluate(level, backend, small, il2, oc2, None)
-        f2 = [x for x in f2 if not (x[3] and x[3]["known_class"])] or f2
         if f2:
             j = f2[0][0]
             ck.violation({"level": level, "backend": backend, "script": small, "failing_line": small[j] if j < len(small) else None,
@@ -691,7 +686,7 @@ def run_level(ck, level, exe, backend, script, tag, state):
                           "outcome": outcome, "note": "failure did not reproduce on the shrunk script"})
         return False
     for (i, m, g) in corr:
-        # model != implementation while the oracle is satisfied (or the deviation is the known one)
+        # model != implementation while the oracle is satisfied
         if any(f[0] == i for f in fails):
             continue
         state["corr"].append({"level": level, "backend": backend, "script": case_lines(script, i) if level == "lo" else script[: i + 1],
@@ -709,7 +704,6 @@ def run_only(exe, script, path, backend):
 RANK_KEY = "array-general-rank-gt-indexdim-rind-oob"
 PROBE_RANK = ["zone 1 3", "grid -", "sol Sol0 v 1,1",
               "w array:Sol0 A general t=r8 sdims=2,2,2 rlo=1,0,0 s=0:1,1:2,1:2 m=8;1:8 100"]
-WITNESS_LO = ["node W i4 5 10", "r W s=1:5:2 m=3;1:3:1 100", "r W s=2:3:4 m=1;1:1:1 100"]
 WITNESS_SHORTCUT = (["zone 1 3", "grid -", "reopen"],
                     ["w coord CoordinateX general t=r8 sdims=3 rlo=0 s=1:3 m=3;1:3 7",
                      "r coord CoordinateX general t=r8 sdims=3 rlo=0 s=101:103 m=3;1:3 50",
@@ -748,27 +742,30 @@ def run(ck):
                       "partial, plain-read and full-write entry points; both rind conventions toggled inside a session; ~25% "
                       "invalid.  Every case is compared with the extracted model AND with the nested-loop oracle.  non-trivial = "
                       "accepted proper-subset transfer (mid: with non-zero rind or a rank change); distinct by SHA1(backend+op)")
-    state = {"dist": {}, "known": 0, "corr": []}
+    state = {"dist": {}, "corr": []}
     ok = True
 
-    # ---- the refuted witnesses, replayed on the implementation
-    for backend in ("adf", "hdf5"):
-        if not run_level(ck, "lo", lo, backend, WITNESS_LO, "wit", state):
-            ok = False
+    # ---- the read-shortcut witness, replayed on the implementation (informational)
     il, oc = run_only(mid, WITNESS_SHORTCUT[0] + WITNESS_SHORTCUT[1], os.path.join(ck.work, "sc.cgns"), "adf")
     ck.extra["spec_deviation_full_span_read_shortcut"] = {
         "script": WITNESS_SHORTCUT[1][1:], "observed": il[-4:],
         "note": "a read of 101..103 on a 3-element array is accepted (extents equal the stored extents); the same write is "
                 "rejected; documented in cgns_internals.c as backward compatibility, exercised by test_general_rind"}
 
-    # ---- side finding, dormant until the lead lists its key (it lies outside the generated domain, which keeps the rank of
-    # arrays under rind-bearing parents equal to the index dimension): cg_array_general_write / _read index
-    # rind_planes[2*n] for n < array rank, but the parent's rind_planes has only 2*IndexDimension entries
-    if ck.known_match(RANK_KEY):
-        il, oc = run_only(mid, PROBE_RANK, os.path.join(ck.work, "rk.cgns"), "adf")
-        ck.extra["rank_gt_indexdim_probe"] = {"outcome": oc, "lines": il[-2:]}
-        if oc != "ok":
-            ck.finding(RANK_KEY, {"level": "mid", "backend": "adf", "script": PROBE_RANK, "outcome": oc})
+    # ---- known finding (outside the generated domain, which keeps the rank of arrays under rind-bearing parents equal to
+    # the index dimension): cg_array_general_write / _read index rind_planes[2*n] for n < array rank, but the parent's
+    # rind_planes has only 2*IndexDimension entries.  Matched narrowly: ASan heap-buffer-overflow whose innermost frame is
+    # cgi_array_general_verify_range, on the rank-3-array-in-a-1-D-zone probe; any other outcome of the probe is judged
+    # by the oracle like every other case.
+    il, oc = run_only(mid, PROBE_RANK, os.path.join(ck.work, "rk.cgns"), "adf")
+    ck.extra["rank_gt_indexdim_probe"] = {"outcome": oc, "lines": il[-2:]}
+    ck.case(None)
+    if oc == "asan:heap-buffer-overflow@cgi_array_general_verify_range":
+        ck.finding(RANK_KEY, {"level": "mid", "backend": "adf", "script": PROBE_RANK, "outcome": oc,
+                              "what": "array rank 3 != IndexDimension 1 under FlowSolution_t with Rind"})
+    elif oc != "ok":
+        ck.violation({"level": "mid", "backend": "adf", "script": PROBE_RANK, "outcome": oc, "lines": il[-3:]})
+        ok = False
 
     # ---- corpus
     cdir = os.path.join(vlib.ROOT, "corpus", "C05")
@@ -835,7 +832,6 @@ def run(ck):
                           "note": "model and implementation differ (or an obligation no longer checks) but every case explored "
                                   "still satisfies the nested-loop oracle"}, nofail=True)
     ck.extra["input_distribution"] = state["dist"]
-    ck.extra["known_finding_cases"] = state["known"]
     ck.extra["correspondence_divergences"] = len(state["corr"])
 
 
@@ -854,7 +850,7 @@ def replay(ck, path):
     for (i, exp, obs, info) in fails:
         print("replay: line %d %r: oracle expects %s, implementation %s (outcome %s)%s" % (
             i, script[i] if i < len(script) else None, exp, obs, oc,
-            " [class of known finding %s]" % KNOWN_KEY if info and info["known_class"] else ""))
+            ""))
     for (i, m, g) in corr:
         print("replay: line %d: model %s, implementation %s" % (i, m, g))
     print("replay: property %s on this input" % ("FAILS" if fails else "holds"))
